@@ -55,6 +55,27 @@ CHECKS["C09"]=dict(cat="model_checking", engine="sched", design="DESIGN.md §3 C
    technique="stateless exploration under a controlled scheduler: wow-mpq compiled against a loom-backed rayon stand-in, every interleaving of task claim/start/finish up to preemption bound 2 (quick) / 3 (thorough) executed on the real extraction entry points and compared with sequential reads; plus an exhaustive configuration sweep (threads x batch x list length x skip x missing position) on the real rayon",
    text="Schedules: 641 cases (10 entry points x request lists from {p,q,duplicate,missing,unreadable} in every order x skip x workers 1..3) each run under loom::model; 165k schedules in quick; every schedule's result is compared slot-by-slot with Archive::read_file and the result set per case must be a singleton. Configurations: the full 7x5x9x2x4 product on real rayon decides the configuration clause.",
    note="Trusted: loom; the rayon contract modelled by /verif/harness-sched/rayon. Code between loom operations is atomic to the explorer (data races inside a task body are out of reach).")
+CHECKS["C07"]=dict(cat="exploration", engine="xplore", design="DESIGN.md §3 C07",
+   technique="bounded-exhaustive enumeration of (source archive x rebuild option tuple): sources over version x crypto x compression x listfile x attributes x file-set shapes from the real builder plus independently written foreign archives; options = target x compression override x block-size override x 5 booleans (all tuples within 2 deviations of the default in quick, full product in thorough); each rebuilt by the real rebuild_archive and judged against generator ground truth, an independent census of the target tables and compare_archives",
+   text="Every (source, option tuple) pair of the stated product is rebuilt on the real code; the expected file set comes from the generator, the target is read back bit for bit, excluded files must be absent, summary counts must be truthful, and compare_archives must report no content difference.",
+   note="Trusted: generator ground truth, refimpl::mpqref census. Err without a target is an accepted refusal.")
+CHECKS["C10"]=dict(cat="fault_enumeration", engine="xplore", design="DESIGN.md §3 C10",
+   technique="exhaustive single-fault enumeration: every byte offset of every protected region (file data, sector offset/CRC tables, attributes arrays, V4 header/table digests and digested tables, signed bytes and signature) of a catalogue of small archives x fault values (bit flips, 0x00/0xFF, 2- and 4-byte overwrites), each faulted archive read and verified by the real library and C API in a forked child; all single-bit flips of signed buffers and signatures for the signature primitive",
+   text="All protected byte offsets of 39 (quick) / 78 (thorough) archives covering 12 metadata kinds are faulted one at a time; the property's disjunction is judged exactly (violation only if a read returns Ok with altered content and every applicable verify operation still succeeds). Intact archives must verify everywhere.",
+   note="Trusted: refimpl::mpqref layout map plus knowledge of the builder's layout for locating regions; faulted evaluations run in forked children with an address-space limit (abort/panic counts as failure reported).")
+CHECKS["C11"]=dict(cat="exploration", engine="xplore", design="DESIGN.md §3 C11",
+   technique="bounded-exhaustive enumeration of an entry-name grammar (components from {.., ., empty, a, B.txt, C:, con, 251 x, non-ASCII, blank} joined by either separator, with anchored absolute / drive prefixes, up to 2-3 components) x preserve-paths x patch-chain x whole/explicit extraction, each run through the real CLI in a fresh jail, observed by a recursive before/after snapshot and by the strace log of mutating path-taking system calls",
+   text="Every name of the grammar bound x 8 modes is extracted by the real binary from an archive written by the independent writer (names are not normalised); nothing outside out/ may be created or changed according to both observers. Only containment is judged.",
+   note="Trusted: strace, the snapshot walker, refimpl::mpqref writer. The tool runs as an unprivileged uid inside the jail so an escape cannot leave the scratch directory.")
+CHECKS["C20"]=dict(cat="exploration", engine="xplore", design="DESIGN.md §3 C20",
+   technique="bounded-exhaustive enumeration of (file set x create options x extract options) round trips and of (sub-command template x seed file x damage class) for all 173 sub-command templates of every format family, each executed as a real CLI process and judged by five sound uniform rules against the in-process library view",
+   text="Full product of create/extract options on 6-10 file sets (bit-identical round trip, list/info agree with the library); every sub-command x seed x damage class (nonexistent, empty, garbage, truncations, 0xFFFFFFFF fields, 0xFF windows): exit status must be non-zero where the rules demand it and every exit-0 output must exist and parse.",
+   note="Trusted: the in-process library oracle for 'parse Ok', process exit codes. No rule is applied where 'what was asked' is ambiguous.")
+PENDING={}
+PENDING["C19"]=dict(cat="model_checking", engine="histbfs", design="DESIGN.md §3 C19",
+   technique="(threads) stateless exploration under loom: storm-ffi compiled with hook H1 so its Mutex/LazyLock/thread_local are loom's; 21 scenarios of 2-3 threads x 1-2 C-API calls on shared handles, all interleavings up to preemption bound 2/3, linearizability by differential against every sequential merge of the same calls; (sequential) explicit-state BFS over C-API call histories in forked children against a handle/cursor model and the Rust API",
+   text="Threads: every interleaving of lock acquisitions for each scenario is executed on the real source; outcomes (return values + probes) must equal some sequential merge; no deadlock, panic or duplicate handle. Sequential: bounded-exhaustive call histories with stale/closed/null/forged handles and boundary buffer sizes, canaries on every buffer.",
+   note="Trusted: loom, hook H1 facade (verif_sync). Code between two lock operations is atomic to the explorer; invalid pointers (as opposed to invalid handles/sizes) are the caller's contract.")
 NOT_APPLICABLE = {}
 def main():
     checks=[]
@@ -87,7 +108,7 @@ def main():
       },
       "engines": [
         {"name":"xplore","path":"/verif/harness/vcore","serves_properties":sorted(k for k,v in CHECKS.items() if v["engine"]=="xplore"),"kind_free_text":"bounded-exhaustive enumerator over finite case spaces with worker subprocesses, crash/hang attribution, deterministic double replay, known-finding matcher"},
-        {"name":"histbfs","path":"/verif/harness/props/c06, /verif/harness/props/c08","serves_properties":sorted(k for k,v in CHECKS.items() if v["engine"]=="histbfs"),"kind_free_text":"explicit-state search over the real implementation: states reached by history replay, canonical-key dedup, reference model compared at every transition"},
+        {"name":"histbfs","path":"/verif/harness/props/c06, /verif/harness/props/c08, /verif/harness/props/c19","serves_properties":sorted(k for k,v in CHECKS.items() if v["engine"]=="histbfs"),"kind_free_text":"explicit-state search over the real implementation: states reached by history replay, canonical-key dedup, reference model compared at every transition"},
         {"name":"sched","path":"/verif/harness-sched","serves_properties":sorted(k for k,v in CHECKS.items() if v["engine"]=="sched"),"kind_free_text":"loom controlled scheduler with a loom-backed rayon stand-in ([patch.crates-io]) and loom-backed std::sync facade for storm-ffi"},
       ],
       "checks": checks,
